@@ -69,17 +69,42 @@ mut('C18', 'never-store', T, "            if self._cachestore is not None:\n    
 mut('C18', 'valid-uses-gt', C, "        return store_mtime >= os.stat(filename).st_mtime", "        return store_mtime > os.stat(filename).st_mtime",
     note='stricter freshness: still correct; must NOT be flagged', expect=0)
 
+# ---- C16 (determinism) -----------------------------------------------------------------
+G = 'giscanner/girwriter.py'
+A = 'giscanner/ast.py'
+mut('C16', 'includes-unsorted', G, "for include in sorted(namespace.includes):", "for include in namespace.includes:")
+mut('C16', 'packages-unsorted', G, "for pkg in sorted(set(namespace.exported_packages)):", "for pkg in set(namespace.exported_packages):")
+mut('C16', 'c-includes-unsorted', G, "for c_include in sorted(set(namespace.c_includes)):", "for c_include in set(namespace.c_includes):")
+mut('C16', 'namespace-nodes-unsorted', G, "for node in sorted(namespace.values(), key=nscmp):", "for node in namespace.values():")
+mut('C16', 'record-methods-unsorted', G, "            for method in sorted(record.methods):", "            for method in record.methods:")
+mut('C16', 'record-ctors-unsorted', G, "            for method in sorted(record.constructors):", "            for method in record.constructors:")
+mut('C16', 'record-static-unsorted', G, "            for method in sorted(record.static_methods):", "            for method in record.static_methods:")
+mut('C16', 'cached-dep-loses-packages', T, "        if not uninstalled:\n            for pkg in parser.get_namespace().exported_packages:", "        if not uninstalled and fresh:\n            for pkg in parser.get_namespace().exported_packages:",
+    note='two-site mutant: packages of a dependency only registered when it was parsed afresh; they only feed the pkg-config call, never the output, so this is equivalent with respect to C16 and must NOT be flagged', expect=0)
+M[-1]['also'] = [(T, "        parser = None\n        if self._cachestore is not None:\n            parser = self._cachestore.load(filename)\n        if parser is None:", "        parser = None\n        fresh = False\n        if self._cachestore is not None:\n            parser = self._cachestore.load(filename)\n        if parser is None:\n            fresh = True")]
+mut('C16', 'tagns-struct-first-loses-ctype', T, "                compound.name = name\n                compound.ctype = symbol.ident", "                compound.name = name")
+mut('C16', 'tagns-typedef-first-loses-fields', T, "        # Fields may need to be parsed in either of the above cases because the\n        # Record can be created with a typedef prior to the struct definition.\n        self._parse_fields(symbol, compound)",
+    "        if symbol.ident not in self._tag_ns:\n            self._parse_fields(symbol, compound)")
+mut('C16', 'main-position-prefers-typedef-by-set-order', A, "            if position.is_typedef:\n                res = position\n            else:\n                return position", "            return position")
+
 
 def run_one(m, extra_env=None):
     scratch = tempfile.mkdtemp(prefix='verif-mut-')
     try:
         shutil.copytree(os.path.join(REPO, 'giscanner'), os.path.join(scratch, 'giscanner'),
                         ignore=shutil.ignore_patterns('__pycache__'))
+        os.symlink(os.path.join(REPO, 'tests'), os.path.join(scratch, 'tests'))
         p = os.path.join(scratch, m['path'])
         s = open(p).read()
         if m['old'] not in s:
             return {'name': m['name'], 'error': 'pattern not found'}
         open(p, 'w').write(s.replace(m['old'], m['new'], 1))
+        for path2, old2, new2 in m.get('also', []):
+            p2 = os.path.join(scratch, path2)
+            s2 = open(p2).read()
+            if old2 not in s2:
+                return {'name': m['name'], 'error': 'second pattern not found'}
+            open(p2, 'w').write(s2.replace(old2, new2, 1))
         env = dict(os.environ, VERIF_REPO=scratch, VERIF_EVIDENCE_DIR=os.path.join(scratch, 'evidence'),
                    VERIF_REPLAY_DIR=os.path.join(scratch, 'replays'))
         env.update(extra_env or {})
